@@ -166,7 +166,9 @@ pub fn gen_value(rng: &mut Rng, cfg: &GenCfg, depth: usize) -> Val {
         3 => Val::Int(5),
         4 => Val::Int(*rng.pick(&[0, -1, 42, 7, i32::MAX as i64, -(1 << 40)])),
         5 => Val::Float(5.0),
-        6 => Val::Float(*rng.pick(&[0.5, -2.25, 1e10, 3.0])),
+        // exact in single precision, not exact, tiny, huge, subnormal, negative zero's neighbour: a format that
+        // stores floats must give back the same f64 (NaN and infinities are not generated: unspecified)
+        6 => Val::Float(*rng.pick(&[0.5, -2.25, 1e10, 3.0, 0.1, -1234.5678, 1e-10, 1e-300, 5e-324, 1.7976931348623157e308, 16777217.0, -0.000001])),
         7 => Val::Str("5".to_string()),
         8 => Val::Str(rng.pick(&["x", "y", "noun", "verb", ""]).to_string()),
         9 => Val::Str(gen_text(rng, cfg)),
@@ -473,7 +475,31 @@ impl<'a> Gen<'a> {
         let mut subs: Vec<Sel> = Vec::new();
         let bad_at = if invalid { Some(self.rng.below(n)) } else { None };
         // bias: runs of adjacent text selections on one resource / consecutive annotations (range compression)
-        let style = self.rng.below(4);
+        let style = self.rng.below(5);
+        if style == 4 && !invalid {
+            // a run of consecutive whole annotations (one merged range) with a tail of one to three other
+            // members behind it: everything written per member (resource, offsets, ids) must stay aligned
+            // with the members the range expands to
+            let live: Vec<usize> = m.annotations.iter().enumerate().filter(|(_, a)| a.live).map(|(i, _)| i).collect();
+            let k = self.rng.range(2, 3);
+            if live.len() >= k {
+                let start = self.rng.below(live.len() - k + 1);
+                for &uid in &live[start..start + k] {
+                    subs.push(Sel::Annotation { a: Ref { idx: uid, by: By::Handle }, offset: None });
+                }
+                for _ in 0..self.rng.range(1, 3) {
+                    subs.push(self.simple_sel(m, false));
+                }
+                if self.rng.chance(1, 4) {
+                    self.rng.shuffle(&mut subs);
+                }
+                return match kind {
+                    1 => Sel::Multi(subs),
+                    2 => Sel::Composite(subs),
+                    _ => Sel::Directional(subs),
+                };
+            }
+        }
         for i in 0..n {
             let bad = bad_at == Some(i);
             if bad && self.rng.chance(1, 3) {
